@@ -145,3 +145,41 @@ CONTRACTS[M + "get_note_names"] = dict(
              ("fresh-list", "is_fresh(result)")],
     split=[{"field_types": {"self.notes": "[" + ",".join(["Note"] * k) + "]"}} for k in range(0, 4)], split_is_domain=True,
     notes="domain: containers of 0..3 notes with arbitrary (also equal) names", properties=["C12"], battery="nc_only")
+
+# lifting of transposition / augmentation / diminution to a container: every note, exactly once, by the same amount
+from contracts.cont_note import _SG as _TSG, _SIZE as _TSIZE  # noqa: E402
+_NOTES_OK = "all([canon(n.name) and abs(net(n.name)) <= 4 for n in self.notes])"
+CONTRACTS[M + "transpose"] = dict(
+    params={"self": "NoteContainer", "interval": "str", "up": "bool"},
+    requires=[("names-up-to-double-accidentals", _NOTES_OK),
+              ("shorthand-up-to-two-accidentals",
+               "is_interval_shorthand(interval) and len(interval) <= 3 and "
+               "(cnt_sharp(interval, 0, len(interval) - 1) == 0 or cnt_flat(interval, 0, len(interval) - 1) == 0)"),
+              ("size-0-to-11", "0 <= %s and %s <= 11" % (_TSIZE, _TSIZE)),
+              ("distinct-note-objects", "all_distinct_objects(self.notes)")],
+    returns="NoteContainer",
+    old={"old_pitches": "[pitch(n) for n in self.notes]", "old_notes": "[n for n in self.notes]"},
+    old_by_reference=["old_notes"],
+    ensures=[("returns-the-container", "same_object(result, self)"),
+             ("same-note-objects-in-the-same-order", "list_same_objects(self.notes, old_notes)"),
+             ("every-note-moved-by-exactly-the-interval",
+              "all([pitch(self.notes[i]) == old_pitches[i] + %s * %s for i in range(len(self.notes))])" % (_TSG, _TSIZE))],
+    modifies=["param:self"],
+    split=[{"field_types": {"self.notes": "[" + ",".join(["Note"] * k) + "]"}} for k in range(0, 4)], split_is_domain=True,
+    notes="domain: containers of 0..3 distinct Note objects (names up to four accidentals), any shorthand with up to two "
+          "accidentals and size 0..11, up and down; a container holding the same Note object twice would move it twice",
+    properties=["C11"], battery="nc_transpose")
+for _nm, _d in (("augment", 1), ("diminish", -1)):
+    CONTRACTS[M + _nm] = dict(
+        params={"self": "NoteContainer"},
+        requires=[("valid-names", "all([is_name(n.name) for n in self.notes])"),
+                  ("distinct-note-objects", "all_distinct_objects(self.notes)")],
+        returns="None",
+        old={"old_pitches": "[pitch(n) for n in self.notes]", "old_notes": "[n for n in self.notes]"},
+        old_by_reference=["old_notes"],
+        ensures=[("same-note-objects-in-the-same-order", "list_same_objects(self.notes, old_notes)"),
+                 ("every-note-moved-by-one-semitone",
+                  "all([pitch(self.notes[i]) == old_pitches[i] + %d for i in range(len(self.notes))])" % _d)],
+        modifies=["param:self"],
+        split=[{"field_types": {"self.notes": "[" + ",".join(["Note"] * k) + "]"}} for k in range(0, 4)], split_is_domain=True,
+        properties=["C11"], battery="nc_only_distinct")
